@@ -184,11 +184,135 @@ func gBytes(r *rand.Rand, n int) []byte {
 	}
 	return b
 }
+func gScalars(r *rand.Rand, n int) []*Scalar {
+	out := make([]*Scalar, n)
+	for i := range out { out[i] = gScalar(r) }
+	return out
+}
+func gPoints(r *rand.Rand, n int) []*Point {
+	out := make([]*Point, n)
+	for i := range out { out[i] = gPoint(r) }
+	return out
+}
+func cloneScalars(a []*Scalar) []*Scalar {
+	out := make([]*Scalar, len(a))
+	for i := range a { c := *a[i]; out[i] = &c }
+	return out
+}
+func clonePoints(a []*Point) []*Point {
+	out := make([]*Point, len(a))
+	for i := range a { c := *a[i]; out[i] = &c }
+	return out
+}
+
+// reference arithmetic of the curve group on affine coordinates over math/big (independent of the code under test)
+type gpt struct{ x, y *big.Int }
+
+var refD = func() *big.Int {
+	d := new(big.Int).Mul(big.NewInt(-121665), new(big.Int).ModInverse(big.NewInt(121666), pP))
+	return d.Mod(d, pP)
+}()
+var refBase = gpt{lit("15112221349535400772501151409588531511454012693041857206046113283949847762202"), lit("46316835694926478169428394003475163141307993866256225615783033603165251855960")}
+
+func refId() gpt { return gpt{big.NewInt(0), big.NewInt(1)} }
+func refAdd(a, b gpt) gpt {
+	m := func(u, v *big.Int) *big.Int { z := new(big.Int).Mul(u, v); return z.Mod(z, pP) }
+	x1y2, y1x2, y1y2, x1x2 := m(a.x, b.y), m(a.y, b.x), m(a.y, b.y), m(a.x, b.x)
+	t := m(refD, m(x1x2, y1y2))
+	dx := new(big.Int).Add(big.NewInt(1), t)
+	dy := new(big.Int).Sub(big.NewInt(1), t)
+	x3 := m(new(big.Int).Add(x1y2, y1x2), new(big.Int).ModInverse(dx.Mod(dx, pP), pP))
+	y3 := m(new(big.Int).Add(y1y2, x1x2), new(big.Int).ModInverse(dy.Mod(dy, pP), pP))
+	return gpt{x3, y3}
+}
+func refNeg(a gpt) gpt { x := new(big.Int).Neg(a.x); return gpt{x.Mod(x, pP), a.y} }
+func refSmul(n *big.Int, p gpt) gpt {
+	acc := refId()
+	if n.Sign() < 0 { return refSmul(new(big.Int).Neg(n), refNeg(p)) }
+	for i := n.BitLen() - 1; i >= 0; i-- {
+		acc = refAdd(acc, acc)
+		if n.Bit(i) == 1 { acc = refAdd(acc, p) }
+	}
+	return acc
+}
+func refPtV(p Point) gpt {
+	zi := finvB(lvL(field.GovcLimbs(&p.z)))
+	x := new(big.Int).Mul(lvL(field.GovcLimbs(&p.x)), zi)
+	y := new(big.Int).Mul(lvL(field.GovcLimbs(&p.y)), zi)
+	return gpt{x.Mod(x, pP), y.Mod(y, pP)}
+}
+func ptEq(a, b gpt) bool { return a.x.Cmp(b.x) == 0 && a.y.Cmp(b.y) == 0 }
+
 func gP2(r *rand.Rand) *projP2 { return new(projP2).FromP3(gPoint(r)) }
 func gCached(r *rand.Rand) *projCached { return new(projCached).FromP3(gPoint(r)) }
 func gAffine(r *rand.Rand) *affineCached { return new(affineCached).FromP3(gPoint(r)) }
 func gP1xP1(r *rand.Rand) *projP1xP1 { return new(projP1xP1).Add(gPoint(r), gCached(r)) }
 '''
+
+
+class GroupGoGen(RingGoGen):
+    """RingGoGen + the tier-G vocabulary, evaluated against reference arithmetic on affine coordinates"""
+
+    def __init__(self, prog, contracts, env, pkgname, assigned, lens):
+        super().__init__(prog, contracts, env, pkgname, assigned)
+        self.lens = lens
+
+    def tr(self, ast, old=False):
+        if ast[0] == "gsum":
+            _, var, lo, hi, body = ast
+            lo = self.num(self.tr(lo, old))
+            hi = self.num(self.tr(hi, old))
+            acc = "refId()"
+            saved = self.bound.get(var)
+            for i in range(lo, hi):
+                self.bound[var] = ("num", i, None)
+                acc = "refAdd(%s, %s)" % (acc, self.pt(self.tr(body, old)))
+            if saved is None:
+                self.bound.pop(var, None)
+            else:
+                self.bound[var] = saved
+            return ("pt", acc, None)
+        return super().tr(ast, old)
+
+    def pt(self, x):
+        if x[0] != "pt":
+            raise ValueError("point expected, got %r" % (x[0],))
+        return x[1]
+
+    def binary(self, ast, old):
+        _, op, a, b = ast
+        if op in ("==", "!="):
+            x, y = self.tr(a, old), self.tr(b, old)
+            if x[0] == "pt" or y[0] == "pt":
+                return ("bool", "%sptEq(%s, %s)" % ("" if op == "==" else "!", self.pt(x), self.pt(y)), None)
+        return super().binary(ast, old)
+
+    def call(self, name, args, old):
+        if name == "len":
+            a = args[0]
+            if a[0] == "id" and a[1] in self.lens:
+                return ("num", self.lens[a[1]], None)
+        if name == "pt":
+            e, t = self.valexpr(self.tr(args[0], old))
+            if self.prog.kind(t) == "ptr":
+                e, t = "(*%s)" % e, self.prog.elem(t)
+            if t != MAIN + ".Point":
+                raise ValueError("pt() of %s has no reference translation" % t)
+            return ("pt", "refPtV(%s)" % e, None)
+        if name == "smul":
+            return ("pt", "refSmul(%s, %s)" % (self.big(self.tr(args[0], old)), self.pt(self.tr(args[1], old))), None)
+        if name == "gadd":
+            return ("pt", "refAdd(%s, %s)" % (self.pt(self.tr(args[0], old)), self.pt(self.tr(args[1], old))), None)
+        if name == "gneg":
+            return ("pt", "refNeg(%s)" % self.pt(self.tr(args[0], old)), None)
+        if name == "gid":
+            return ("pt", "refId()", None)
+        if name == "gbase":
+            return ("pt", "refBase", None)
+        if name == "gvalid":
+            parts = [RingGoGen.call(self, n_, args, old)[1] for n_ in ("elems", "init", "validc")]
+            return ("bool", "(" + " && ".join(parts) + ")", None)
+        return super().call(name, args, old)
 
 
 def generator_for(prog, t, pkgname, length_of, many_elems=False):
@@ -209,6 +333,12 @@ def generator_for(prog, t, pkgname, length_of, many_elems=False):
         return None
     if k == "slice" and prog.int_info(prog.elem(t)) == (8, False):
         return "gBytesN(rng, %s)" % length_of
+    if k == "slice" and pkgname == "edwards25519" and prog.kind(prog.elem(t)) == "ptr":
+        et = prog.elem(prog.elem(t))
+        if et == MAIN + ".Scalar":
+            return "gScalars(rng, %s)" % length_of
+        if et == MAIN + ".Point":
+            return "gPoints(rng, %s)" % length_of
     ii = prog.int_info(t)
     if ii:
         return "%s(rng.Intn(2))" % go_type(prog, t, "")
@@ -219,133 +349,200 @@ def sampled_replay(repo, ob, trials=400):
     """returns dict(label -> description of the failing input) for the ensures clauses falsified on the real code,
     plus '__frame__' / '__panic__' entries; {} if nothing was reproduced; None if the function cannot be sampled"""
     run = getattr(ob, "run", None)
-    if run is None or run.mode != "ring" or run.c.variant or run.f.get("lemma"):
+    if run is None or run.mode not in ("ring", "group") or run.c.variant or run.f.get("lemma"):
         return None
     prog, f, c = run.prog, run.f, run.c
-    if not f.get("hasBody"):
+    if not f.get("hasBody") or "$" in f["short"]:
         return None
     pkg = f.get("pkg", "")
     pkgname = "field" if pkg == FIELD else "edwards25519"
     pkgdir = "field" if pkg == FIELD else "."
-    if any(k == "ghost" for k, _ in c.other):
-        ghosts = True
-    else:
-        ghosts = False
+    if run.mode == "group" and pkgname != "edwards25519":
+        return None
+    ghosts = any(k == "ghost" for k, _ in c.other)
+    # lengths of pointer-slice parameters: the values of the contract's entry split (each gets its own trial function)
+    lens_list = [{}]
+    split = {}
+    for kind, txt in c.other:
+        if kind == "entrysplit":
+            m = re.match(r"^len\((\w+)\)\s+in\s+(\d+)\s*\.\.\s*(\d+)$", txt.strip())
+            if m:
+                split[m.group(1)] = (int(m.group(2)), int(m.group(3)))
+    if split:
+        lo = max(v[0] for v in split.values())
+        hi = min(v[1] for v in split.values())
+        lens_list = [{k: n for k in split} for n in range(lo, hi)]
     # alias classes of the partition under which the obligation failed
     alias = {}
     if ob.part and ob.part not in ("distinct", "static", "flow", "ground"):
         for grp in ob.part.split(","):
-            names = grp.split("=")
-            for n in names[1:]:
-                alias[n] = names[0]
-    setup, env, names = [], {}, []
-    for gname, g in prog.globals.items():
-        if not gname.startswith(pkg + "."):
-            continue
-        short = gname[len(pkg) + 1:]
-        t = prog.elem(g["type"])
-        k = prog.kind(t)
-        if k == "ptr":
-            env[short] = ("ptr", short, prog.elem(t), "(*%s)" % short)
-        elif prog.int_info(t):
-            env[short] = ("int", short, t, None)
-        elif k in ("struct", "array"):
-            env[short] = ("val", short, t, None)
-    for i, p in enumerate(f["params"]):
-        nm = c.params[i] if i < len(c.params) else p["name"]
-        gv = "p_" + re.sub(r"\W", "_", nm)
-        t = p["type"]
-        k = prog.kind(t)
-        names.append(gv)
-        if nm in alias and alias[nm] in env:
-            setup.append("%s := %s" % (gv, env[alias[nm]][1]))
-            env[nm] = (env[alias[nm]][0], gv, env[alias[nm]][2], env[alias[nm]][3])
-            continue
-        ln = "32"
-        v = run.param_vals.get(p["name"])
-        if k == "slice" and v is not None:
-            cl = run.dom.concrete(getattr(ob, "slice_lens", {}).get(p["name"], v.len))
-            if cl is not None:
-                ln = str(cl)
-            else:
-                ln = "[]int{0, 31, 32, 32, 32, 33, 64}[rng.Intn(7)]"
-        many = sum(1 for q in f["params"] if prog.kind(q["type"]) == "ptr" and prog.elem(q["type"]) == FIELD + ".Element") >= 4
-        g = generator_for(prog, t, pkgname, ln, many)
-        if g is None:
-            return None
-        setup.append("%s := %s" % (gv, g))
-        if k == "ptr":
-            setup.append("old_%s := *%s" % (gv, gv))
-            env[nm] = ("ptr", gv, prog.elem(t), "old_" + gv)
-        elif k == "slice":
-            setup.append("old_%s := append([]byte{}, %s...)" % (gv, gv))
-            env[nm] = ("slice", gv, t, "old_" + gv)
-        else:
-            env[nm] = ("int", gv, t, None)
-    nres = len(f["results"])
-    resvars = ["r%d" % i for i in range(nres)]
-    for i, rt in enumerate(f["results"]):
-        k = prog.kind(rt)
-        kind = "ptr" if k == "ptr" else "slice" if k == "slice" else "iface" if k == "interface" else "int" if prog.int_info(rt) else "val"
-        ent = (kind, resvars[i], prog.elem(rt) if kind == "ptr" else rt, None)
-        env["result%d" % i] = ent
-        if nres == 1:
-            env["result"] = ent
-    assigned = set()
-    for a in (c.assigns or []):
-        n = a
-        while n[0] in ("deref", "field", "index", "slice"):
-            n = n[1]
-        if n[0] == "id":
-            assigned.add(n[1])
-    gen = RingGoGen(prog, run.V.contracts, env, pkgname, assigned)
-    pre, post, skipped = [], [], []
-    gen_pre = RingGoGen(prog, run.V.contracts, env, pkgname, None)
-    for i, (lab, ast, txt) in enumerate(c.requires):
-        try:
-            pre.append(gen_pre.tr(ast)[1])
-        except Exception as e:
-            if ghosts:
+            names_ = grp.split("=")
+            for n in names_[1:]:
+                alias[n] = names_[0]
+    skipped = []
+
+    def make_trial(fname, lens):
+        setup, env, names = [], {}, []
+        for gname, g in prog.globals.items():
+            if not gname.startswith(pkg + "."):
                 continue
-            return None     # a precondition that cannot be evaluated: sampling could report inputs outside the contract
-    pan = []
-    for kind, txt in c.other:
-        if kind == "panics":
-            from .cparse import parse_expr, split_label
-            lab, e = split_label(txt)
-            try:
-                pan.append(gen_pre.tr(parse_expr(e))[1])
-            except Exception:
+            short = gname[len(pkg) + 1:]
+            t = prog.elem(g["type"])
+            k = prog.kind(t)
+            if k == "ptr":
+                env[short] = ("ptr", short, prog.elem(t), "(*%s)" % short)
+            elif prog.int_info(t):
+                env[short] = ("int", short, t, None)
+            elif k in ("struct", "array"):
+                env[short] = ("val", short, t, None)
+        many = sum(1 for q in f["params"] if prog.kind(q["type"]) == "ptr" and prog.elem(q["type"]) == FIELD + ".Element") >= 4
+        for i, p in enumerate(f["params"]):
+            nm = c.params[i] if i < len(c.params) else p["name"]
+            gv = "p_" + re.sub(r"\W", "_", nm)
+            t = p["type"]
+            k = prog.kind(t)
+            names.append(gv)
+            if nm in alias and alias[nm] in env:
+                setup.append("%s := %s" % (gv, env[alias[nm]][1]))
+                env[nm] = (env[alias[nm]][0], gv, env[alias[nm]][2], env[alias[nm]][3])
+                continue
+            ln = "32"
+            v = run.param_vals.get(p["name"])
+            if k == "slice" and nm in lens:
+                ln = str(lens[nm])
+            elif k == "slice" and v is not None:
+                cl = run.dom.concrete(v.len)
+                ln = str(cl) if cl is not None else "[]int{0, 31, 32, 32, 32, 33, 64}[rng.Intn(7)]"
+            g = generator_for(prog, t, pkgname, ln, many)
+            if g is None:
                 return None
-    for i, (lab, ast, txt) in enumerate(c.ensures):
-        try:
-            post.append((lab or str(i + 1), txt, gen.tr(ast)[1]))
-        except Exception as e:
-            skipped.append("%s: %s" % (txt, e))
-    frame = []
-    for i, p in enumerate(f["params"]):
-        nm = c.params[i] if i < len(c.params) else p["name"]
-        if nm in assigned or nm in alias and alias[nm] in assigned or any(alias.get(a) == nm for a in assigned):
-            continue
-        kind = env[nm][0]
-        if kind == "ptr":
-            frame.append(("frame *%s" % nm, "reflect.DeepEqual(*%s, %s)" % (env[nm][1], env[nm][3])))
-        elif kind == "slice":
-            frame.append(("frame %s[...]" % nm, "reflect.DeepEqual(%s, %s)" % (env[nm][1], env[nm][3])))
-    if f["recv"]:
-        call = "%s.%s(%s)" % (names[0], f["short"], ", ".join(names[1:]))
-    else:
-        call = "%s(%s)" % (f["short"], ", ".join(names))
-    dump = []
-    for i, p in enumerate(f["params"]):
-        nm = c.params[i] if i < len(c.params) else p["name"]
-        kind, gv = env[nm][0], env[nm][1]
-        if kind == "ptr":
-            dump.append('fmt.Sprintf("%s=%%+v", %s)' % (nm, env[nm][3]))
-        elif kind == "slice":
-            dump.append('fmt.Sprintf("%s=%%x", %s)' % (nm, env[nm][3]))
+            setup.append("%s := %s" % (gv, g))
+            if k == "ptr":
+                setup.append("old_%s := *%s" % (gv, gv))
+                env[nm] = ("ptr", gv, prog.elem(t), "old_" + gv)
+            elif k == "slice" and prog.kind(prog.elem(t)) == "ptr":
+                cl_ = "cloneScalars" if prog.elem(prog.elem(t)) == MAIN + ".Scalar" else "clonePoints"
+                setup.append("old_%s := %s(%s)" % (gv, cl_, gv))
+                env[nm] = ("slice", gv, t, "old_" + gv)
+            elif k == "slice":
+                setup.append("old_%s := append([]byte{}, %s...)" % (gv, gv))
+                env[nm] = ("slice", gv, t, "old_" + gv)
+            else:
+                env[nm] = ("int", gv, t, None)
+        nres = len(f["results"])
+        resvars = ["r%d" % i for i in range(nres)]
+        for i, rt in enumerate(f["results"]):
+            k = prog.kind(rt)
+            kind = "ptr" if k == "ptr" else "slice" if k == "slice" else "iface" if k == "interface" else "int" if prog.int_info(rt) else "val"
+            ent = (kind, resvars[i], prog.elem(rt) if kind == "ptr" else rt, None)
+            env["result%d" % i] = ent
+            if nres == 1:
+                env["result"] = ent
+        assigned = set()
+        for a in (c.assigns or []):
+            n = a
+            while n[0] in ("deref", "field", "index", "slice"):
+                n = n[1]
+            if n[0] == "id":
+                assigned.add(n[1])
+        if run.mode == "group":
+            gen = GroupGoGen(prog, run.V.contracts, env, pkgname, assigned, lens)
+            gen_pre = GroupGoGen(prog, run.V.contracts, env, pkgname, None, lens)
         else:
-            dump.append('fmt.Sprintf("%s=%%v", %s)' % (nm, gv))
+            gen = RingGoGen(prog, run.V.contracts, env, pkgname, assigned)
+            gen_pre = RingGoGen(prog, run.V.contracts, env, pkgname, None)
+        pre, post = [], []
+        for i, (lab, ast, txt) in enumerate(c.requires):
+            try:
+                pre.append(gen_pre.tr(ast)[1])
+            except Exception as e:
+                if ghosts:
+                    continue
+                return None     # a precondition that cannot be evaluated: sampling could report inputs outside the contract
+        pan = []
+        for kind, txt in c.other:
+            if kind == "panics":
+                from .cparse import parse_expr, split_label
+                lab, e = split_label(txt)
+                try:
+                    pan.append(gen_pre.tr(parse_expr(e))[1])
+                except Exception:
+                    return None
+        for i, (lab, ast, txt) in enumerate(c.ensures):
+            try:
+                post.append((lab or str(i + 1), txt, gen.tr(ast)[1]))
+            except Exception as e:
+                skipped.append("%s: %s" % (txt, e))
+        frame = []
+        for i, p in enumerate(f["params"]):
+            nm = c.params[i] if i < len(c.params) else p["name"]
+            if nm in assigned or nm in alias and alias[nm] in assigned or any(alias.get(a) == nm for a in assigned):
+                continue
+            kind = env[nm][0]
+            if kind == "ptr":
+                frame.append(("frame *%s" % nm, "reflect.DeepEqual(*%s, %s)" % (env[nm][1], env[nm][3])))
+            elif kind == "slice":
+                frame.append(("frame %s[...]" % nm, "reflect.DeepEqual(%s, %s)" % (env[nm][1], env[nm][3])))
+        if f["recv"]:
+            call = "%s.%s(%s)" % (names[0], f["short"], ", ".join(names[1:]))
+        else:
+            call = "%s(%s)" % (f["short"], ", ".join(names))
+        dump = []
+        for i, p in enumerate(f["params"]):
+            nm = c.params[i] if i < len(c.params) else p["name"]
+            kind, gv = env[nm][0], env[nm][1]
+            t = p["type"]
+            if kind == "ptr":
+                dump.append('fmt.Sprintf("%s=%%+v", %s)' % (nm, env[nm][3]))
+            elif kind == "slice" and prog.kind(prog.elem(t)) == "ptr":
+                dump.append('func() string { s := "%s=["; for _, e := range %s { s += fmt.Sprintf("%%+v ", *e) }; return s + "]" }()' % (nm, env[nm][3]))
+            elif kind == "slice":
+                dump.append('fmt.Sprintf("%s=%%x", %s)' % (nm, env[nm][3]))
+            else:
+                dump.append('fmt.Sprintf("%s=%%v", %s)' % (nm, gv))
+        src = ["func %s(rng *rand.Rand) (used bool, failed []string, inputs string) {" % fname,
+               "\t// a panic while inputs are generated or a clause is evaluated is a defect of this harness, not of the code:",
+               "\t// the trial is discarded (the call itself runs under its own recover below)",
+               "\tdefer func() { if r := recover(); r != nil { used = false; failed = nil } }()"]
+        src += ["\t" + s_ for s_ in setup]
+        src.append("\tinputs = strings.Join([]string{%s}, \" \")" % ", ".join(dump))
+        for e in pre:
+            src.append("\tif !(%s) { return false, nil, inputs }" % e)
+        src.append("\tused = true")
+        panexpr = " || ".join("(%s)" % e for e in pan) if pan else "false"
+        src.append("\tmayPanic := %s" % panexpr)
+        for i, rt in enumerate(f["results"]):
+            src.append("\tvar %s %s" % (resvars[i], go_type(prog, rt, pkg)))
+        src.append("\tpanicked := func() (pv interface{}) {")
+        src.append("\t\tdefer func() { pv = recover() }()")
+        if nres:
+            src.append("\t\t%s = %s" % (", ".join(resvars), call))
+        else:
+            src.append("\t\t" + call)
+        src.append("\t\treturn nil")
+        src.append("\t}()")
+        if nres:
+            src.append("\t" + "; ".join("_ = %s" % r for r in resvars))
+        src.append("\tif panicked != nil {")
+        src.append("\t\tif !mayPanic { failed = append(failed, fmt.Sprintf(\"__panic__ %v\", panicked)) }")
+        src.append("\t\treturn")
+        src.append("\t}")
+        src.append("\tif mayPanic { failed = append(failed, \"__nopanic__ returned normally although a declared panic condition holds\"); return }")
+        for lab, txt, e in post:
+            src.append("\tif !(%s) { failed = append(failed, %s) }" % (e, json.dumps(lab)))
+        for lab, e in frame:
+            src.append("\tif !(%s) { failed = append(failed, %s) }" % (e, json.dumps("__frame__ " + lab)))
+        src.append("\treturn")
+        src.append("}")
+        return src
+
+    trial_src, trial_names = [], []
+    for k_, lens in enumerate(lens_list):
+        t_ = make_trial("govcTrial%d" % k_, lens)
+        if t_ is None:
+            return None
+        trial_src += t_ + [""]
+        trial_names.append("govcTrial%d" % k_)
     imports = ['"fmt"', '"math/big"', '"math/rand"', '"reflect"', '"strings"', '"testing"']
     if pkgname == "edwards25519":
         imports.append('"filippo.io/edwards25519/field"')
@@ -355,48 +552,15 @@ def sampled_replay(repo, ob, trials=400):
            HELPERS, RING_HELPERS, GEN_MAIN if pkgname == "edwards25519" else GEN_FIELD,
            "func gArr(r *rand.Rand, n int) []byte { b := make([]byte, n); r.Read(b); return b }",
            "func gBytesN(r *rand.Rand, n int) []byte { " + ("return gBytes(r, n)" if pkgname == "edwards25519" else "b := make([]byte, n); r.Read(b); if n == 32 && r.Intn(2) == 0 { b[31] &= 127 }; return b") + " }",
-           "",
-           "func govcTrial(rng *rand.Rand) (used bool, failed []string, inputs string) {",
-           "\t// a panic while inputs are generated or a clause is evaluated is a defect of this harness, not of the code:",
-           "\t// the trial is discarded (the call itself runs under its own recover below)",
-           "\tdefer func() { if r := recover(); r != nil { used = false; failed = nil } }()"]
-    src += ["\t" + s for s in setup]
-    src.append("\tinputs = strings.Join([]string{%s}, \" \")" % ", ".join(dump))
-    for e in pre:
-        src.append("\tif !(%s) { return false, nil, inputs }" % e)
-    src.append("\tused = true")
-    panexpr = " || ".join("(%s)" % e for e in pan) if pan else "false"
-    src.append("\tmayPanic := %s" % panexpr)
-    decl = []
-    for i, rt in enumerate(f["results"]):
-        decl.append("\tvar %s %s" % (resvars[i], go_type(prog, rt, pkg)))
-    src += decl
-    src.append("\tpanicked := func() (pv interface{}) {")
-    src.append("\t\tdefer func() { pv = recover() }()")
-    if nres:
-        src.append("\t\t%s = %s" % (", ".join(resvars), call))
-    else:
-        src.append("\t\t" + call)
-    src.append("\t\treturn nil")
-    src.append("\t}()")
-    if nres:
-        src.append("\t" + "; ".join("_ = %s" % r for r in resvars))
-    src.append("\tif panicked != nil {")
-    src.append("\t\tif !mayPanic { failed = append(failed, fmt.Sprintf(\"__panic__ %v\", panicked)) }")
-    src.append("\t\treturn")
-    src.append("\t}")
-    src.append("\tif mayPanic { failed = append(failed, \"__nopanic__ returned normally although a declared panic condition holds\"); return }")
-    for lab, txt, e in post:
-        src.append("\tif !(%s) { failed = append(failed, %s) }" % (e, json.dumps(lab)))
-    for lab, e in frame:
-        src.append("\tif !(%s) { failed = append(failed, %s) }" % (e, json.dumps("__frame__ " + lab)))
-    src.append("\treturn")
-    src.append("}")
-    src += ["", "func TestGovcSampled(t *testing.T) {",
+           ""] + trial_src
+    if run.mode == "group":
+        trials = min(trials, 60)     # every trial runs reference scalar multiplications over math/big
+    src += ["func TestGovcSampled(t *testing.T) {",
             "\trng := rand.New(rand.NewSource(20261001))",
+            "\ttrialsOf := []func(*rand.Rand) (bool, []string, string){%s}" % ", ".join(trial_names),
             "\tused := 0",
             "\tfor i := 0; i < %d; i++ {" % trials,
-            "\t\tu, failed, inputs := govcTrial(rng)",
+            "\t\tu, failed, inputs := trialsOf[i%len(trialsOf)](rng)",
             "\t\tif u { used++ }",
             "\t\tif len(failed) > 0 {",
             "\t\t\tfmt.Printf(\"GOVC-SAMPLE {\\\"trial\\\": %d, \\\"failed\\\": %q, \\\"inputs\\\": %q}\\n\", i, strings.Join(failed, \"|\"), inputs)",
@@ -415,7 +579,7 @@ def sampled_replay(repo, ob, trials=400):
         ov = os.path.join(tmp, "ov.json")
         json.dump({"Replace": {os.path.join(repo, pkgdir, "govc_sampled_test.go"): tf,
                                os.path.join(repo, "field", "govc_accessor.go"): af}}, open(ov, "w"))
-        cmd = ["go", "test", "-overlay", ov, "-vet=off", "-count=1", "-timeout", "120s", "-v", "-run", "^TestGovcSampled$", "./" + pkgdir]
+        cmd = ["go", "test", "-overlay", ov, "-vet=off", "-count=1", "-timeout", "120s", "-v", "-tags", "verif", "-run", "^TestGovcSampled$", "./" + pkgdir]
         r = subprocess.run(cmd, cwd=repo, capture_output=True, env=S.GOENV, timeout=300)
         out = r.stdout.decode(errors="replace") + r.stderr.decode(errors="replace")
     finally:
